@@ -1,1 +1,12 @@
-From VP Require Import Base.Tactics Sase.Model Sase.Props.
+(* Pins the C02 statements. Compiled on every run. *)
+From VP Require Import Base.Tactics Zdd.Model Sase.Model Sase.ProofsBounds Sase.ProofsSound Sase.ProofsSoundEngine
+  Sase.ProofsCompile Sase.Props Sase.Ref.
+Check (C02_soundness_partial :
+  forall steps negs part max_runs st lim evs out,
+    run_collect (mkCfg (compile steps) negs part max_runs st lim) engine0 evs = Some out ->
+    Forall (Forall (genuine (compile steps) negs evs)) out).
+Check (C02_not_on_completing_event_refuted :
+  ref_matches kf_negs None kf_steps kf_events = [[0; 1]%N] /\
+  engine_stacks (mkCfg (compile kf_steps) kf_negs None 10 SDrop (mkLim 20 10)) engine0 kf_events = Some []).
+Print Assumptions C02_soundness_partial.
+Print Assumptions C02_not_on_completing_event_refuted.
